@@ -134,13 +134,13 @@ def parts(tier):
                 CH("merge_order", "vflib.props.c07:scen_merge_order", {"models": 4}, shards=16, timeout=170, path_timeout=30),
                 CH("order_objects", "vflib.props.c07:scen_order", {"kinds": "KINDS_ORDER2", "samples": 3, "dkr": [None, "^\\d+$"], "symbolic_leaves": False},
                    shards=16, timeout=170, path_timeout=60, mode="CH-E")]
-    return [CH("merge_order", "vflib.props.c07:scen_merge_order", {"models": 5}, shards=16, timeout=900, path_timeout=30),CH("order", "vflib.props.c07:scen_order", {"kinds": "KINDS_SMALL", "samples": 3, "merge": ["default", "p50n2"], "all_traced": True},
-               shards=16, timeout=700, path_timeout=90, mode="CH-P+CH-E"),
+    return [CH("merge_order", "vflib.props.c07:scen_merge_order", {"models": 5}, shards=16, timeout=400, path_timeout=30),CH("order", "vflib.props.c07:scen_order", {"kinds": "KINDS_SMALL", "samples": 3, "merge": ["default", "p50n2"], "all_traced": True},
+               shards=16, timeout=400, path_timeout=90, mode="CH-P+CH-E"),
             CH("order_nested", "vflib.props.c07:scen_order", {"kinds": "KINDS_NEST", "samples": 3, "merge": ["default", "p50n2"],
                                                               "symbolic_leaves": False},
-               shards=16, timeout=700, path_timeout=60, mode="CH-E"),
+               shards=16, timeout=400, path_timeout=60, mode="CH-E"),
             CH("order_two_keys", "vflib.props.c07:scen_order", {"kinds": "KINDS_ORDER", "samples": 2, "keys": ["a", "b"], "merge": ["default", "p50n2"]},
-               shards=16, timeout=700, path_timeout=60, mode="CH-P+CH-E")]
+               shards=16, timeout=400, path_timeout=60, mode="CH-P+CH-E")]
 
 
 META = {
